@@ -10,6 +10,17 @@
                                     reader (0 EOF alone, 1 EOF with the last data, 2 error), b random source, c = number of
                                     Write calls the writer accepts, d = buffer size offered to each body Read
           9 DecryptStreamTo         l1 stream bytes, l2 secret, l5 plan, a, c, d as above
+          10 / 11                   = 8 / 9 for LONG streams (tens of kilobytes: single reads / writes larger than
+                                    io.Copy's 32 KiB buffer, streams of several buffers).  The case and the judge (sub 2) are
+                                    those of 8 / 9: every byte is judged against the library's whole-message CTR (one
+                                    query).  sub 0 would need one AES-block query per 16 bytes, so it gives the part of the
+                                    model's answer that does not depend on the block cipher -- result code, NUMBER of
+                                    bytes written, sizes of the writes -- computed with the constant cipher [E0]; the
+                                    harness projects the implementation's output the same way (Prop.XProj).
+          e (kinds 8, 10): which source the harness hands to EncryptStreamTo (0 its chunking reader, 1 the same with
+                                    io.WriterTo: one Write per chunk, 2 bytes.Reader, 3 bytes.Buffer, 4 strings.Reader,
+                                    5 bufio.Reader over bytes.Reader); the model ignores it: a source with WriteTo is a
+                                    reader whose chunks all fit the buffer (d >= every chunk).
    sub 0 = model output; sub 2 = spec_ok on put_list case ++ put_list impl_output ++ ntbl :: table -> [1]/[0].
    Oracle queries (Go standard library): 1/2 AES block enc/dec, 3/4 GCM Seal/Open, 5/6 whole-message CBC enc/dec,
    7 md5, 8 base64 encode, 9 base64 decode (1::bytes / [0]), 10 k iv d: cipher.NewCTR(..).XORKeyStream. *)
@@ -101,6 +112,14 @@ Definition queries (sub : Z) (o : op) : list (list Z) :=
   | _ => []
   end.
 
+(* long streams (kinds 10, 11), sub 0: the key derivation only *)
+Definition big_queries (o : op) : list (list Z) :=
+  match o with
+  | OEncStream _ (Some salt) _ _ s => md5_qs s salt
+  | ODecStream _ r _ s => if hdr_ok (r_data r) then md5_qs s (salt_of (r_data r)) else []
+  | _ => []
+  end.
+
 Definition first_missing (qs : list (list Z)) : option (list Z) :=
   find (fun q => match lookup q tbl with None => true | Some _ => false end) qs.
 End Tbl.
@@ -121,14 +140,24 @@ Definition dec_op (l : list Z) : option op * list Z :=
         else if kind =? 5 then Some (OSCDec (bz a) l1 l2)
         else if kind =? 6 then Some (OSGEnc osalt l1 l2 l4)
         else if kind =? 7 then Some (OSGDec (bz e) (bz a) l1 l2 l4)
-        else if kind =? 8 then if 0 <? d then Some (OEncStream (Z.to_nat d) osalt rd c l2) else None
-        else if kind =? 9 then if 0 <? d then Some (ODecStream (Z.to_nat d) rd c l2) else None
+        else if (kind =? 8) || (kind =? 10) then if 0 <? d then Some (OEncStream (Z.to_nat d) osalt rd c l2) else None
+        else if (kind =? 9) || (kind =? 11) then if 0 <? d then Some (ODecStream (Z.to_nat d) rd c l2) else None
         else None), rest)
   | _ => (None, [])
   end.
 
 Definition get_tbl (rest : list Z) : list (list Z * list Z) :=
   match rest with n :: t => fst (get_table (Z.to_nat n) t) | [] => [] end.
+
+(* kinds 10 / 11 *)
+Definition is_big (args : list Z) : bool := match args with k :: _ => (k =? 10) || (k =? 11) | [] => false end.
+Definition E0 (_ _ : list Z) : list Z := repeat 0 16.
+(* 0 :: code :: put_list written ++ put_list sizes  |->  0 :: code :: |written| :: put_list sizes *)
+Definition proj_stream (out : list Z) : list Z :=
+  match out with
+  | 0 :: code :: rest => let (written, r2) := get_list rest in 0 :: code :: Z.of_nat (length written) :: r2
+  | _ => out
+  end.
 
 Definition entry (sub : Z) (args : list Z) : list Z :=
   if sub =? 2 then
@@ -150,6 +179,12 @@ Definition entry (sub : Z) (args : list Z) : list Z :=
     match oo with
     | None => [BADCASE]
     | Some o =>
+        if is_big args then
+          match first_missing tbl (big_queries tbl o) with
+          | Some q => ASK :: q
+          | None => proj_stream (run_op E0 (D_t tbl) (seal_t tbl) (open_t tbl) (md5_t tbl) (b64enc_t tbl) (b64dec_t tbl) o)
+          end
+        else
         match first_missing tbl (queries tbl 0 o) with
         | Some q => ASK :: q
         | None => run_op (E_t tbl) (D_t tbl) (seal_t tbl) (open_t tbl) (md5_t tbl) (b64enc_t tbl) (b64dec_t tbl) o
@@ -166,6 +201,12 @@ Example anchor_ask_md5 : entry 0 ([4; 0;1;0;0;0] ++ put_list [] ++ put_list [9] 
 Proof. vm_compute. reflexivity. Qed.
 Example anchor_rand_fails : entry 0 ([8; 0;0;5;100;0] ++ put_list [1;2] ++ put_list [9] ++ put_list [] ++ [0] ++ put_list [2] ++ [0])
   = [0; 19; 0; 0].
+Proof. vm_compute. reflexivity. Qed.
+Example anchor_big_rand_fails : entry 0 ([10; 0;0;5;100;1] ++ put_list [1;2] ++ put_list [9] ++ put_list [] ++ [0] ++ put_list [2] ++ [0])
+  = [0; 19; 0; 0].
+Proof. vm_compute. reflexivity. Qed.
+Example anchor_big_short_stream : entry 0 ([11; 0;0;5;100;0] ++ put_list [83;97;108] ++ put_list [9] ++ [0;0] ++ put_list [1;1;1] ++ [0])
+  = [0; 15; 0; 0].
 Proof. vm_compute. reflexivity. Qed.
 Example anchor_short_stream : entry 0 ([9; 0;0;5;100;0] ++ put_list [83;97;108] ++ put_list [9] ++ [0;0] ++ put_list [1;1;1] ++ [0])
   = [0; 15; 0; 0].
